@@ -174,6 +174,21 @@ CLAIMED = {
         'read from the data sheets. Not covered: FeliCa Lite-S mutual authentication and write_with_mac, FeliCa '
         'protect(), Ultralight C. FeliCa contracts are not natively replayable.',
    technique='contract-based deductive verification with uninterpreted ideal functions for crypto (pyvc)'),
+ 'C06': dict(
+   category='proof',
+   text='SNEP fragmentation layer over an assumed FIFO socket model, for every message length and every send_miu >= 1: '
+        'client send_request - the concatenation of the fragments handed to the socket is a prefix of the request and '
+        'the whole request on success, no fragment exceeds send_miu, later fragments are sent only after the 6-octet '
+        'Continue response was read (loop invariant via a ghost stream); client recv_response - the result is the '
+        'prefix of the peer\'s octets of exactly the announced length, refused when the announced length exceeds the '
+        'acceptable length, Continue is sent at most once; server _serve - process_snep_request is called only with a '
+        'complete request whose announced length is within max_acceptable_length (interface precondition at the call '
+        'site), all loops have variants.',
+   design_ref='DESIGN.md section 5 (C06)',
+   note='The socket is an environment model (C05 is its justification); ndef encode/decode are not inspected. Not '
+        'covered: process_snep_request field slicing, SnepClient.put/get header construction, handover client and '
+        'server, the full stack from connect() to the radio (modular proof stops at the socket).',
+   technique='contract-based deductive verification: loop invariants over a ghost byte stream (pyvc)'),
 }
 
 NOT_APPLICABLE = {}
